@@ -99,6 +99,14 @@ SETTERS = {
     "matern.lengthscale(interval)": (lambda: K.MaternKernel(lengthscale_constraint=Interval(0.1, 3.0)), "lengthscale", (1, 1), 0.1),
     "cosine.period_length": (lambda: K.CosineKernel(), "period_length", (1, 1), 0.0),
     "multitask.task_noises": (lambda: gpytorch.likelihoods.MultitaskGaussianLikelihood(num_tasks=2), "task_noises", (2,), 1e-4),
+    "constant.constant": (lambda: K.ConstantKernel(), "constant", (1,), 0.0),
+    "hamming.alpha": (lambda: K.HammingIMQKernel(vocab_size=2), "alpha", (1,), 0.0),
+    "hamming.beta": (lambda: K.HammingIMQKernel(vocab_size=2), "beta", (1,), 0.0),
+    "laplace.noise": (lambda: gpytorch.likelihoods.LaplaceLikelihood(), "noise", (1,), 0.0),
+    "studentt.deg_free": (lambda: gpytorch.likelihoods.StudentTLikelihood(), "deg_free", (1,), 2.0),
+    "beta.scale": (lambda: gpytorch.likelihoods.BetaLikelihood(), "scale", (1,), 0.0),
+    "index.var": (lambda: K.IndexKernel(num_tasks=2, rank=1), "var", (2,), 0.0),
+    "arc.radius": (lambda: K.ArcKernel(K.RBFKernel()), "radius", (1, 1), 0.0),
 }
 
 
@@ -140,6 +148,17 @@ def setter(S, target):
             except Exception as e:
                 okb, finite_raw = False, False
             S.check_concrete(okb and finite_raw, "%s: large value %g assigned through the setter reads back (finite raw parameter)" % (target, big))
+    # a plain Python float is accepted by every setter (and by Module.initialize) and broadcast to the parameter's shape
+    m4 = make()
+    fv = lower + 0.8
+    try:
+        setattr(m4, attr, fv)
+        okf = bool(((getattr(m4, attr) - fv).abs() < 1e-9).all())
+        m4.initialize(**{attr: fv + 0.1})
+        okf = okf and bool(((getattr(m4, attr) - fv - 0.1).abs() < 1e-9).all())
+    except Exception as e:
+        okf = False
+    S.check_concrete(okf, "%s: a Python float is accepted by the setter and by initialize()" % target)
     # out-of-bounds assignments are rejected (concrete witnesses on both sides of each bound)
     m2 = make()
     bad = [lower - 0.05] + ([hi + 0.5] if hi is not None else [])
